@@ -228,6 +228,11 @@ CORE_FILES = [
     "job_shop_lib/generation/_general_instance_generator.py",
     "job_shop_lib/visualization/_plot_gantt_chart.py",
     "job_shop_lib/constraint_programming/_ortools_solver.py",
+    "job_shop_lib/graphs/_constants.py",
+    "job_shop_lib/graphs/_node.py",
+    "job_shop_lib/graphs/_job_shop_graph.py",
+    "job_shop_lib/graphs/_build_disjunctive_graph.py",
+    "job_shop_lib/graphs/graph_updaters/_utils.py",
 ]
 
 
